@@ -182,6 +182,11 @@ def _in_library(tb) -> bool:
     return False
 
 
+class LibraryOutputError(Exception):
+    """Raised by harness code when what the library produced (an output file, a record table) is missing or cannot be
+    interpreted in the documented layout; reported as a violation, not as a harness error."""
+
+
 def _lib_frame(frames):
     lib = os.path.join(os.path.realpath(REPO), "tdgl") + os.sep
     for fr in reversed(frames):
@@ -211,7 +216,10 @@ def run_one(cid, case):
         text = "".join(traceback.format_exception(type(exc), exc, tb))[-3000:]
         r = CaseResult()
         r.key = case_key(case)
-        if _in_library(tb) and not isinstance(exc, (KeyboardInterrupt, SystemExit)):
+        if isinstance(exc, LibraryOutputError):
+            r.violate("library-output-malformed", what=str(exc.args[0]) if exc.args else "", detail={"traceback": text})
+            packed = r.pack()
+        elif _in_library(tb) and not isinstance(exc, (KeyboardInterrupt, SystemExit)):
             # the library raised where the harness needed it to succeed
             frames = traceback.extract_tb(tb)
             r.violate(
